@@ -1,10 +1,16 @@
 (* C12 -- No watched object content can crash the controller or cause a bogus assignment.
-   [Panic] is an explicit result of the model wherever the Go code would dereference, index or
-   assert without a guard.  Proved: under the structural invariant the ordering of matching entries
-   never panics (every entry has a pool), the invariant is preserved by every work item and by
-   construction for every well-formed input, unusable ClusterCIDRs are rejected with an error and
-   leave the state unchanged; what is handed out is always a well-formed block (C02). *)
-From NIPAM Require Import Sys Alloc_proofs Inv_proofs Sel_proofs.
+   [Panic] is an explicit result of the model wherever the Go code would dereference, index or assert
+   without a guard (and wherever a path of the model would not denote an entry).  Proved:
+   - over the closed loop (NoPanic_proofs.v, last theorem of this file): in EVERY history of well-formed
+     operations from the initial world -- ClusterCIDRs with unparseable, empty, wrong-family or any parsed
+     range of the domain of C13, any perNodeHostBits, any (also unrepresentable) selector; nodes with any mix
+     of unparseable and parsed pod CIDRs of either family; deletions delivered plainly, as tombstones or through
+     relists; stale work items; failed and timed-out writes; crashes and restarts -- NO step panics: no node
+     work item, no ClusterCIDR work item, no notification handler, not the construction at start-up;
+   - unusable ClusterCIDRs are rejected with an error and leave the state unchanged;
+   - what is handed out is always a well-formed block (C02), for every such history.
+   Outside the model's value domain: IPv4-mapped IPv6 text forms (K1). *)
+From NIPAM Require Import Sys Alloc_proofs Inv_proofs Sel_proofs Path_proofs NoPanic_proofs World_proofs.
 Open Scope N_scope.
 
 Theorem C12_ordering_never_panics :
@@ -24,32 +30,10 @@ Theorem C12_invariant_preserved_by_clustercidr_items :
 Proof. exact sync_cc_inv. Qed.
 Print Assumptions C12_invariant_preserved_by_clustercidr_items.
 
-Lemma mk_pool_never_panics f fp hb : mk_pool f fp hb <> Panic.
-Proof.
-  unfold mk_pool. destruct fp as [| |c]; try discriminate.
-  destruct (negb (fam_eqb (cf c) f)); [discriminate|]. destruct (new_pool _ _ _ _); discriminate.
-Qed.
-
 (* ClusterCIDR handling itself has no panic at all, for ANY object content *)
 Theorem C12_clustercidr_items_never_panic :
   forall m key cached out, snd (fst (sync_cc m key cached out)) <> Panic.
-Proof.
-  intros m key cached out. unfold sync_cc. destruct cached as [o|]; [|cbn; discriminate].
-  destruct (o_deleting o).
-  - unfold reconcile_delete, delete_cluster_cidr.
-    destruct (o_selkey o) as [k|]; [|cbn; discriminate].
-    destruct (find_key k m) as [l|]; [|destruct (has_str finalizer (o_fins o)); [destruct out|]; cbn; discriminate].
-    destruct (find_name (o_name o) l 0) as [[i c]|]; [|destruct (has_str finalizer (o_fins o)); [destruct out|]; cbn; discriminate].
-    destruct (cc_assoc c); [|cbn; discriminate].
-    destruct l as [|c0 [|c1 l']]; destruct (has_str finalizer (o_fins o)); try destruct out; cbn; discriminate.
-  - unfold reconcile_create. destruct (need_finalizer o || negb (is_mapped_obj m o))%bool; [|cbn; discriminate].
-    unfold create_cluster_cidr. destruct (o_selkey o); [|cbn; discriminate].
-    unfold create_set. destruct (mk_pool V4 (o_v4 o) (o_hb o)) as [p4|e|] eqn:E4; try (cbn; discriminate).
-    + destruct (mk_pool V6 (o_v6 o) (o_hb o)) as [p6|e|] eqn:E6; try (cbn; discriminate).
-      * cbn [cc_v4 cc_v6]. destruct p4, p6; try (cbn; discriminate); destruct (need_finalizer o); try destruct out; cbn; discriminate.
-      * exfalso. exact (mk_pool_never_panics _ _ _ E6).
-    + exfalso. exact (mk_pool_never_panics _ _ _ E4).
-Qed.
+Proof. exact sync_cc_no_panic. Qed.
 Print Assumptions C12_clustercidr_items_never_panic.
 
 (* unusable objects are rejected with an error and change nothing: unrepresentable selector, unparseable
@@ -86,3 +70,36 @@ Proof.
   - apply Z.ltb_lt in H. rewrite H. rewrite Bool.orb_true_r. reflexivity.
 Qed.
 Print Assumptions C12_unusable_hostbits_rejected.
+
+(* a node work item never panics, in any state with the structural invariant and unique keys ... *)
+Theorem C12_node_items_never_panic :
+  forall po lab canp apisame held m cached reread outs,
+  MapInv m -> KU m -> snd (fst (sync_node po lab canp apisame held m cached reread outs)) <> Panic.
+Proof. exact sync_node_no_panic. Qed.
+Print Assumptions C12_node_items_never_panic.
+
+(* ... and these hold in every reachable world: no step of any history of well-formed operations panics *)
+Theorem C12_no_step_of_any_history_panics :
+  forall po lab ops, Forall wf_op ops ->
+  forall o ob w', In (o, ob, w') (trace po lab init_world ops) -> ob_res ob <> 3.
+Proof. exact no_panic_in_any_history. Qed.
+Print Assumptions C12_no_step_of_any_history_panics.
+
+(* non-vacuity: a history with garbage, a wrong-family range, a node holding a CIDR of a family its ClusterCIDR
+   lacks, a tombstone and a relist, evaluated: results are errors and successes, never 3 *)
+Example C12_history_nonvacuous :
+  let po0 : parse_oracle := fun _ => Some [] in
+  let lab0 : label_oracle := fun k => [cl k] in
+  let ops := [UCreateCC (mkCCObj [99] (FOk (mkCidr V4 167772160 26)) FEmpty 4 (Some [107]) [] false 1 0 0);
+              UCreateCC (mkCCObj [100] FBad (FOk (mkCidr V4 167772160 26)) (-3) None [] false 1 0 0);
+              UCreateNode [110;49] [] [PGood (mkCidr V6 (2^120) 124) true; PBad];
+              Construct None None []; StartInformers; ProcCC UOk; ProcCC UOk; ProcNode [POk]; ProcNode [POk];
+              UCreateNode [110;50] [] []; DeliverNode; ProcNode [PFail; PTimeoutApplied; PFail; PFail];
+              UDeleteNode [110;50]; DeliverNodeTombstone; RelistNodes; UDeleteNode [110;49]; RelistNodes] in
+  Forall wf_op ops /\
+  map (fun x => ob_res (snd (fst x))) (trace po0 lab0 init_world ops) = [0; 0; 0; 1; 0; 1; 2; 2; 0; 0; 0; 2; 0; 0; 1; 0; 2].
+Proof.
+  cbv zeta. split; [|vm_compute; reflexivity].
+  repeat constructor; cbn; try discriminate; try (intros ? E; discriminate E);
+    unfold good_obj, good_field, good_range, wf_cidr, wf_pcidr; cbn; repeat split; try lia; try discriminate; try (intros [? _]; discriminate).
+Qed.
